@@ -202,24 +202,54 @@ def tsOfTotal (t : Int) : Value :=
   let secs := t / nsPerSec
   .timestamp (secs / 86400) (secs % 86400) (t % nsPerSec)
 
+/-- `NaiveDateTime::checked_add_signed` before the range check (chrono 0.4.39 `NaiveTime::overflowing_add_signed`): the
+timestamp `ns` nanoseconds after `(d, s, f)`. A value in chrono's leap-second representation (`f ≥ 10⁹`: second `:60`)
+either **stays inside** its leap second (the interval is shorter than a second and does not reach its end: only the
+fraction moves, possibly back into second `:59`), **escapes forwards** (it continues as `hh:mm:59 + (f − 10⁹)`, so the
+leap second counts as one elapsed second) or **escapes backwards** (it continues as the following second
+`+ (f − 10⁹)`). Results of the two escapes and of every ordinary addition are normalised (`tsOfTotal`), never leap. -/
+def tsShift (d s f ns : Int) : Value :=
+  if f < nsPerSec then tsOfTotal (tsTotal d s f + ns)
+  else
+    let secsToAdd := Int.tdiv ns nsPerSec        -- `TimeDelta::num_seconds`: truncated toward zero
+    let fracToAdd := Int.tmod ns nsPerSec        -- `TimeDelta::subsec_nanos`: same sign as the interval
+    if secsToAdd > 0 || (fracToAdd > 0 && f ≥ 2 * nsPerSec - fracToAdd) then tsOfTotal (tsTotal d s (f - nsPerSec) + ns)
+    else if secsToAdd < 0 then tsOfTotal (tsTotal d (s + 1) (f - nsPerSec) + ns)
+    else .timestamp d s (f + fracToAdd)
+
 /-- `DateTime::checked_add_signed`: an error when the date leaves chrono's range -/
 def tsAdd (d s f ns : Int) : Outcome Value :=
-  if f ≥ nsPerSec then .oracleMissing "leap-second arithmetic"
-  else
-    let r := tsOfTotal (tsTotal d s f + ns)
-    match r with
-    | .timestamp d' _ _ =>
-      let (y, _, _) := CivilE.civilOfDays d'
-      if -262143 ≤ y && y ≤ 262142 then .ok r else .error .undefinedOperation
-    | _ => .ok r
+  let r := tsShift d s f ns
+  match r with
+  | .timestamp d' _ _ =>
+    let (y, _, _) := CivilE.civilOfDays d'
+    if -262143 ≤ y && y ≤ 262142 then .ok r else .error .undefinedOperation
+  | _ => .ok r
+
+/-- `NaiveDateTime::signed_duration_since` (what `timestamp − timestamp` is) in nanoseconds: the difference of the
+dates plus `NaiveTime::signed_duration_since`, which counts a leap second between the two times of day when the
+EARLIER time of day is in leap representation and the seconds of day differ. On two ordinary timestamps this is the
+difference of the instants `tsTotal`. -/
+def tsDiff (d s f d' s' f' : Int) : Int :=
+  let adj : Int := if s > s' && f' ≥ nsPerSec then 1 else if s < s' && f ≥ nsPerSec then -1 else 0
+  (d - d') * 86400 * nsPerSec + (s - s' + adj) * nsPerSec + (f - f')
 
 def ivChecked (ns : Int) : Outcome Value :=
   if inIv ns then .ok (.interval ns) else .error .undefinedOperation
 
 def arith (op : ArithOp) (l r : Value) : Outcome Value :=
   match l, r with
-  | .timestamp d s f, .interval ns => tsAdd d s f ns
-  | .interval ns, .timestamp d s f => tsAdd d s f ns
+  -- a timestamp moved by an interval: `ts + iv`, `iv + ts` (`checked_add_signed`), `ts − iv` (`checked_sub_signed` =
+  -- adding the negated interval); every other operator between the two has no value (/repo 91aa1f4, finding D63)
+  | .timestamp d s f, .interval ns =>
+    match op with
+    | .add => tsAdd d s f ns
+    | .sub => tsAdd d s f (-ns)
+    | _ => .error .undefinedOperation
+  | .interval ns, .timestamp d s f =>
+    match op with
+    | .add => tsAdd d s f ns
+    | _ => .error .undefinedOperation
   | .null, _ => .ok .null
   | _, .null => .ok .null
   | .int x, .int y =>
@@ -236,9 +266,7 @@ def arith (op : ArithOp) (l r : Value) : Outcome Value :=
       | .add => F64.add x y | .sub => F64.sub x y | .mul => F64.mul x y | .div => F64.div x y))
   | .timestamp d s f, .timestamp d' s' f' =>
     match op with
-    | .sub =>
-      if f ≥ nsPerSec || f' ≥ nsPerSec then .oracleMissing "leap-second arithmetic"
-      else .ok (.interval (tsTotal d s f - tsTotal d' s' f'))
+    | .sub => .ok (.interval (tsDiff d s f d' s' f'))
     | _ => .error .undefinedOperation
   | .interval x, .interval y =>
     match op with
@@ -307,6 +335,16 @@ def truncSpan (part : Bytes) : Option Int :=
   else if part == strBytes "microseconds" then some 1000
   else none
 
+/-- `DateTime::timestamp_nanos_opt`: nanoseconds since 1970 as an `i64` (the nanosecond field — up to 2·10⁹ − 1 in leap
+representation — is added to the whole seconds), with chrono's detour for negative times and its two overflow checks -/
+def stampNs (d s f : Int) : Option Int :=
+  let ts := (d - 719163) * 86400 + s
+  if ts < 0 then (checked ((ts + 1) * nsPerSec)).bind (fun x => checked (x + (f - nsPerSec)))
+  else (checked (ts * nsPerSec)).bind (fun x => checked (x + f))
+
+/-- `date_trunc`. Sub-day parts are chrono's `DurationRound::duration_trunc`: `original − (stamp mod span)` where the
+subtraction is `checked_sub_signed` (`tsShift`; inside the i64-nanosecond window it cannot leave chrono's date range:
+`Lemmas/FuncLeap.lean` `dateTrunc_shift_in_range`, so the `expect` in `DateTime − TimeDelta` is not reachable) -/
 def dateTrunc (part : Bytes) (d s f : Int) : Outcome Value :=
   let (y, mo, dd) := CivilE.civilOfDays d
   if part == strBytes "year" then .ok (.timestamp (CivilE.daysFromCE y 1 1) 0 0)
@@ -315,11 +353,15 @@ def dateTrunc (part : Bytes) (d s f : Int) : Outcome Value :=
   else match truncSpan part with
     | none => .error .invalidTruncatePart
     | some span =>
-      if f ≥ nsPerSec then .oracleMissing "leap-second arithmetic"
-      else
-        let stamp := tsTotal (d - 719163) s f
-        if !inI64 stamp then .error .failedToTruncate
-        else .ok (tsOfTotal (tsTotal d s f - stamp % span))
+      match stampNs d s f with
+      | none => .error .failedToTruncate
+      | some stamp => .ok (tsShift d s f (-(stamp % span)))
+
+/-- `make_timestamp` on INT parts: parts that do not fit their machine field give NULL, like any other invalid date -/
+def makeTimestampOf (y mo d h mi s us : Int) : Outcome Value :=
+  if fitsI32 y && fitsU32 mo && fitsU32 d && fitsU32 h && fitsU32 mi && fitsU32 s && fitsU32 us then
+    .ok ((createTimestamp y mo d h mi s us).getD .null)
+  else .ok .null
 
 def callFunction (O : Oracles) (f : Func) (args : List Value) : Outcome Value :=
   let undef : Outcome Value := .error .undefinedFunction
@@ -425,16 +467,17 @@ def callFunction (O : Oracles) (f : Func) (args : List Value) : Outcome Value :=
     | .array t xs => if some t == a.valueType then .ok (.array t (a :: xs)) else undef
     | _ => undef
   | .now, [] => .oracleMissing "now"
-  | .makeTimestamp, [.int y, .int mo, .int d, .int h, .int mi, .int s, .int us, _] =>
-    if fitsI32 y && fitsU32 mo && fitsU32 d && fitsU32 h && fitsU32 mi && fitsU32 s && fitsU32 us then
-      .ok ((createTimestamp y mo d h mi s us).getD .null)
-    else .ok .null
+  -- the documented seven arguments; an eighth one used to be required (finding D64, /repo 7252aee) and is still
+  -- accepted but never read
+  | .makeTimestamp, [.int y, .int mo, .int d, .int h, .int mi, .int s, .int us, _] => makeTimestampOf y mo d h mi s us
+  | .makeTimestamp, [.int y, .int mo, .int d, .int h, .int mi, .int s, .int us] => makeTimestampOf y mo d h mi s us
   | .makeTimestamp, [_, _, _, _, _, _, _, _] => undef
+  | .makeTimestamp, [_, _, _, _, _, _, _] => undef
   | .epoch, [a] =>
     match a with
     | .timestamp d s f =>
-      if f ≥ nsPerSec then .oracleMissing "leap-second arithmetic"
-      else .ok (.real (F64.div (F64.ofInt ((d - 719163) * 86400000 + s * 1000 + f / 1000000)) (F64.ofInt 1000)))
+      -- `timestamp_millis() as f64 / 1000.0`: whole seconds · 1000 + nanoseconds / 10⁶ (up to 1999 in a leap second)
+      .ok (.real (F64.div (F64.ofInt ((d - 719163) * 86400000 + s * 1000 + f / 1000000)) (F64.ofInt 1000)))
     | _ => undef
   | .dateTrunc, [a, b] =>
     match a, b with
